@@ -195,6 +195,13 @@ def generator_environment(ctx, clause, param_sets):
         inp = {"argv": list(argv)}
         runs = [("python -O", dict(pyflags=("-O",))),
                 ("same-named longer file left by an earlier run", dict(pre_files={name: text + "\n# " + "x" * 4000 + "\n{'stale': 1}\n" * 3}))]
+        # the process environment a cron job / container / Windows console gives the generator
+        runs.append(("ASCII-only standard streams (PYTHONIOENCODING=ascii)", dict(env_extra={"PYTHONIOENCODING": "ascii"})))
+        runs.append(("C locale, no UTF-8 mode", dict(env_extra={"LC_ALL": "C", "LANG": "C", "PYTHONUTF8": "0", "PYTHONCOERCECLOCALE": "0"})))
+        runs.append(("LANG names a locale that is not installed", dict(env_extra={"LANG": "xx_YY.UTF-8", "LC_ALL": "", "LC_CTYPE": "xx_YY.UTF-8"})))
+        runs.append(("warnings are errors (PYTHONWARNINGS=error)", dict(env_extra={"PYTHONWARNINGS": "error"})))
+        if other_fs:
+            runs.append(("temp directory on another file system (TMPDIR)", dict(env_extra={"TMPDIR": other_fs})))
         if other_fs:
             runs.append((f"working directory on another file system ({other_fs}) than the temp directory", dict(base_dir=other_fs)))
         for label, kw in runs:
